@@ -139,11 +139,14 @@ def cases(tier):
             yield Case("corr:ny=%d:nx=%d:pad=%d" % (ny, nx, pad), {"kind": "corr", "ny": ny, "nx": nx, "pad": pad})
     yield Case("quadcell", {"kind": "quad"})
     yield Case("storage", {"kind": "storage"})
+    yield Case("large", {"kind": "large"})
 
 
 def evaluate(p):
     if p["kind"] == "storage":
         return _storage(p)
+    if p["kind"] == "large":
+        return _large(p)
     with warnings.catch_warnings():
         warnings.simplefilter("ignore")
         k = p["kind"]
@@ -591,4 +594,45 @@ def _storage(p):
     n = variants.check_storage(o, "centroid_independent_of_storage",
                                lambda r: C.correlation_centroid(st.copy(), r), ref, 1e-12, sub="corr:reference")
     o.stat("lib_calls", n)
+    return o
+
+
+def _large(p):
+    """Sizes beyond the exhaustive alphabets (implementations that work in blocks of 64/128/256 frames or pixels
+    change behaviour there): a stack of 130 and of 257 different frames against the frames processed alone, large
+    non-square frames (70 x 130 pixels), single bright pixels and shifts on them."""
+    C = _lib()
+    o = Out()
+    i, j = numpy.indices((9, 7))
+    base = ((3 * i * i + 5 * j + 2 * i * j) % 13 + (i == 4) * (j == 2) * 25).astype(float)
+    for nfr in (130, 257):
+        st = numpy.array([numpy.roll(numpy.roll(base, k % 9, 0), (k // 3) % 7, 1) * (1 + 0.01 * k) for k in range(nfr)])
+        ref = base.copy()
+        fns = {"cog": lambda a: C.centre_of_gravity(a.copy()), "cog_thr0.3": lambda a: C.centre_of_gravity(a.copy(), threshold=0.3),
+               "bp0.3": lambda a: C.brightest_pixel(a.copy(), 0.3),
+               "corr": lambda a: C.correlation_centroid(a.copy(), ref.copy(), padding=2)}
+        for name, f in fns.items():
+            full = _xy(f(st))
+            o.stat("lib_calls", 1 + nfr)
+            if full.shape != (2, nfr):
+                o.check("stack_equals_frames_large", False, sub="%s:frames=%d" % (name, nfr), detail="shape %s" % (full.shape,))
+                continue
+            singles = numpy.array([_xy(f(st[k])).reshape(2) for k in range(nfr)]).T
+            o.close("stack_equals_frames_large", _err(full, singles), 1e-9, sub="%s:frames=%d" % (name, nfr))
+    # large non-square frames
+    for shape in ((70, 130), (130, 70), (257, 65)):
+        for (py, px) in ((0, 0), (shape[0] - 1, shape[1] - 1), (shape[0] // 2, 3), (65, shape[1] - 2), (5, 64)):
+            img = numpy.zeros(shape)
+            img[py % shape[0], px % shape[1]] = 2.5
+            want = numpy.array([px % shape[1], py % shape[0]], dtype=float)
+            got = _xy(C.centre_of_gravity(img.copy())).reshape(2)
+            o.close("single_pixel_location_large", _err(got, want), 1e-9, sub="cog:%dx%d:(%d,%d)" % (shape + (py, px)))
+            got = _xy(C.centre_of_gravity(img.copy()[None])).reshape(2)
+            o.close("single_pixel_location_large", _err(got, want), 1e-9, sub="cogNd:%dx%d:(%d,%d)" % (shape + (py, px)))
+            o.stat("lib_calls", 2)
+        dense = numpy.fromfunction(lambda a, b: ((a * 7 + b * 3) % 11 + 1.0) * ((a - 30) ** 2 + (b - 30) ** 2 < 100), shape)
+        c0 = _xy(C.centre_of_gravity(dense.copy())).reshape(2)
+        c1 = _xy(C.centre_of_gravity(numpy.roll(numpy.roll(dense, 9, 0), 17, 1))).reshape(2)
+        o.close("shift_equivariance_large", _err(c1 - c0, numpy.array([17.0, 9.0])), 1e-9, sub="%dx%d" % shape)
+        o.stat("lib_calls", 2)
     return o
